@@ -181,7 +181,7 @@ impl Ed25519Dalek {
 //@| ensures
 //@|     // Ok exactly when the key bytes are a valid 32-byte point, the signature has 64 bytes and verify_strict accepts
 //@|     r is Ok <==> (public_key@.len() == 32 && valid_point(public_key@) && signature@.len() == 64 && ed_valid(public_key@, message@, signature@)),
-//@rwx R1 3
+//@rwx R1 *
 //@- \.map_err\(\|_\| webpki_types::InvalidSignature\)
 //@+ .map_err(|_w| webpki_types::InvalidSignature)
 //@end
@@ -248,7 +248,7 @@ pub mod noq {
 //@rw D5 1
 //@- data.downcast::<Vec<rustls::pki_types::CertificateDer>>()
 //@+ data.downcast::<Vec<Certificate>>()
-//@rwx R1 1
+//@rwx R1 *
 //@- \.map_err\(\|_\| RemoteEndpointIdError::new\(\)\)
 //@+ .map_err(|_w| RemoteEndpointIdError::new())
 //@end
